@@ -5,25 +5,33 @@
    (short_page_ok): all are checked by the harness on every recorded call / token. *)
 From EV Require Import Base.Str Base.PyVal Model.Tokenize Model.Editions Model.Filter Model.Pipeline.
 From EV Require Import Model.SearchEngine Model.Extract Model.E2E Model.RefEngine Model.E2EClosed.
-From EV Require Import Proofs.PipeSpec Proofs.PipeMeta Proofs.ClosedProofs.
+From EV Require Import Proofs.PipeSpec Proofs.PipeMeta Proofs.ClosedProofs Proofs.PageGroup.
 From EV Require Import Gen.Unicode.
 
-(* a short-form citation token ends with its page group (regex fact about the "at page" extractors) *)
+(* "a short-form citation token ends with its page group": no longer needed by the pipeline
+   theorems (the repaired _extract_shortform_citation checks it; tok_ok only asks that the page
+   group is present, which holds for every short-form extractor: Proofs/PageGroup.v).  The
+   predicate is kept because Proofs/ShortPage.v documents that it is FALSE for some texts. *)
 Definition short_page_ok (s : str) : Prop :=
   forall k t, nth_error (fst (tokenize_text s)) k = Some (T t) ->
     t_kind t = KCitation -> t_short t = true ->
     exists pg, glookup g_page (t_groups t) = Some (Some pg) /\ suffix pg (t_data t).
 
-Lemma toks_ok_closed : forall s, short_page_ok s -> toks_ok src_of_gen (fst (tokenize_text s)).
+(* the token contract holds for the computed stream of every text *)
+Theorem toks_ok_closed_all : forall s, toks_ok src_of_gen (fst (tokenize_text s)).
 Proof.
-  intros s Hsp k t Hk. unfold tok_ok.
+  intros s k t Hk. unfold tok_ok.
   destruct (tokenize_text_toks_partial_all s k t Hk) as [Hstop Hcit].
   destruct (t_kind t) eqn:Hkind; try exact I.
   - split.
-    + intros Hshort. exact (Hsp k t Hk Hkind Hshort).
+    + intros Hshort. exact (tokenize_text_page_set_all s k t Hk Hkind Hshort).
     + intros Hshort. exact (Hcit eq_refl Hshort).
   - exact (Hstop eq_refl).
 Qed.
+
+(* (kept for the files that still pass short_page_ok: the premise is not used any more) *)
+Lemma toks_ok_closed : forall s, short_page_ok s -> toks_ok src_of_gen (fst (tokenize_text s)).
+Proof. intros s _. exact (toks_ok_closed_all s). Qed.
 
 Theorem closed_offsets' : forall this_year s ra l,
   s <> s_eyecite -> short_page_ok s ->
@@ -60,3 +68,4 @@ Qed.
 Print Assumptions closed_offsets'.
 Print Assumptions closed_metadata'.
 Print Assumptions closed_metadata_ra'.
+Print Assumptions toks_ok_closed_all.
